@@ -14,9 +14,20 @@ pub const SMALL: Sz = Sz { opaque: 64, list: 8 };
 pub const MEDIUM: Sz = Sz { opaque: 600, list: 40 };
 pub const LARGE: Sz = Sz { opaque: 70_000, list: 400 };
 
+/// byte patterns that code inspecting "opaque" content tends to look for
+const MAGIC_PREFIXES: [&[u8]; 14] = [
+    &[0x30, 0x82], &[0x30, 0x80], &[0x04, 0x20], &[0x16, 0x03, 0x01], &[0x16, 0x03, 0x03, 0x00], &[0x0a, 0x0a], &[0xfa, 0xfa, 0x00, 0x00],
+    b"GET ", b"\x00\x00", &[0xff, 0xff, 0xff, 0xff], &[0x44, 0x4f, 0x57, 0x4e, 0x47, 0x52, 0x44, 0x01], &[0x02, 0x01], &[0x00, 0x17, 0x00, 0x00], &[0x01],
+];
 pub fn opaque(r: &mut Rng, max: usize) -> Vec<u8> {
     let n = r.size(max);
-    r.bytes(n)
+    let mut v = r.bytes(n);
+    if n > 0 && r.chance(1, 8) {
+        let m = *r.pick(&MAGIC_PREFIXES);
+        let k = m.len().min(n);
+        v[..k].copy_from_slice(&m[..k]);
+    }
+    v
 }
 /// valid UTF-8 text of up to `max` bytes mixing 1..4-byte characters (names that Debug impls decode)
 pub fn utf8_text(r: &mut Rng, max: usize) -> Vec<u8> {
@@ -144,7 +155,13 @@ pub fn ext_block(r: &mut Rng, sz: Sz) -> Option<Vec<u8>> {
 }
 pub fn u16_list(r: &mut Rng, max: usize) -> Vec<u16> {
     let n = list_len(r, max);
-    let mut v: Vec<u16> = (0..n).map(|_| r.u16b()).collect();
+    let mut v: Vec<u16> = (0..n)
+        .map(|_| match r.below(10) {
+            // code points with a meaning of their own: GREASE, SCSVs, common suites / groups / schemes
+            0 => *r.pick(&[0x0a0au16, 0x1a1a, 0xfafa, 0x00ff, 0x5600, 0x1301, 0x1302, 0xc02f, 0x002f, 0x0017, 0x001d, 0x0403, 0x0804, 0x0304, 0x0303, 0xfefd]),
+            _ => r.u16b(),
+        })
+        .collect();
     // related elements: runs of duplicates, ascending / descending order, registered-after-unregistered pairs
     match r.below(8) {
         0 => v.sort(),
